@@ -308,7 +308,7 @@ impl Property for C15 {
     }
     fn streams(&self, tier: Tier, seed: u64) -> Vec<Stream> {
         let n = classes().len() as u64;
-        let mut v = vec![Stream::new("all-ordered-pairs-x-6-separators(row per case)", n, true, |i| format!("row:{i}"))];
+        let mut v = vec![Stream::new("all-ordered-pairs-x-9-separators(row per case)", n, true, |i| format!("row:{i}"))];
         if tier == Tier::Thorough {
             v.push(Stream::new("all-ordered-triples-x-2-separators(row per case)", n * n, true, |i| format!("trow:{i}")));
         }
